@@ -136,6 +136,14 @@ class Lab:
         if tag not in self.srcs:
             d = os.path.join(self.root, 'src_' + tag)
             shutil.copytree(self.src, d)
+            if tag.startswith('cpp'):
+                # a C++-modules target: the Ninja backend writes a per-target dependency-scan pickle <target>.p/<name>.dat
+                mb = os.path.join(d, 'meson.build')
+                t = open(mb).read()
+                assert "project('p', default_options" in t
+                open(mb, 'w').write(t.replace("project('p', default_options", "project('p', 'cpp', default_options") +
+                                    "executable('e', 'm.cpp', cpp_args: ['-fmodules-ts'])\n")
+                open(os.path.join(d, 'm.cpp'), 'w').write('int main() { return 0; }\n')
             self.srcs[tag] = d
         return self.srcs[tag]
 
@@ -286,14 +294,14 @@ class Lab:
         return {'followup': 'reconfigure' if conf else 'setup', 'rc': r.returncode, 'cls': cls, 'msg_values': msgs if r.returncode == 0 else None,
                 'tail': [t[:200] for t in tail] if r.returncode else []}
 
-    def classify(self, dirs, refs):
+    def classify(self, dirs, refs, wellformed=False):
         """dirs -> adapter answers (real loaders), in chunks, in parallel."""
         if not dirs:
             return []
         chunks = [dirs[i:i + 24] for i in range(0, len(dirs), 24)]
 
         def one(ch):
-            return run_impl('c09.py', {'classify': [{'dir': d, 'ninja_refs': refs} for d in ch], 'keys': KEYS, 'values': VALUES,
+            return run_impl('c09.py', {'classify': [{'dir': d, 'ninja_refs': refs} for d in ch], 'keys': KEYS, 'values': VALUES, 'wellformed': wellformed,
                                        'dats': self.dat_names, 'infos': self.info_names},
                             env={'PYTHONPYCACHEPREFIX': self.pyc, 'PYTHONDONTWRITEBYTECODE': ''})['classify']
         out = []
@@ -373,6 +381,12 @@ def scenarios(thorough, rng):
         S.append(('killed-first-setup(before coredata)/setup', [('S', [(0, 1)], None, 4)], ('S', [(1, 1)])))
         S.append(('killed-configure(cmd_line updated)/reconfigure', conf + [('C', [(0, 2)], None, 3)], ('R', [])))
         S.append(('reconfigured-twice/configure', conf + [('R', [(2, 2)], None, None), ('R', [(0, 3)], None, None)], ('C', [(2, 1)])))
+    if os.environ.get('C09_DEPSCAN') == '1':
+        # a C++-modules project (per-target dependency-scan pickle).  Behind a toggle until pending/C09-depscan-pickle-atomic.diff
+        # is applied: on the unchanged tree a kill between the truncating open and the write of <target>.p/<name>.dat makes
+        # every later `meson setup --reconfigure` die with EOFError.
+        S.append(('cpp-modules/setup', [], ('S', [(0, 1)]), 'plain', 'cpp'))
+        S.append(('cpp-modules/reconfigure', [('S', [(0, 1)], None, None)], ('R', [(0, 2)]), 'bracket', 'cpp'))
     # seeded random scenarios: random history of completed commands, random command, random -D lists
     for n in range(4 if thorough else 1):
         S.append(random_scenario(rng, n))
@@ -537,7 +551,7 @@ def do_replay(ctx):
     run = Runner(ctx, lab)
     hist = [tuple(e) for e in r['history']]
     hist = [(e[0], [tuple(x) for x in e[1]] if e[0] != 'X' else e[1], e[2], e[3]) for e in hist]
-    srctag = 'p000' if r.get('private_project_copy') else ''
+    srctag = ('cpp000' if r.get('project') == 'cpp' else 'p000') if r.get('private_project_copy') else ''
     src = lab.src_for(srctag)
     base, hw = run.build_history(hist, r.get('style', 'plain'), srctag)
     kind, D = r['command'][0], [tuple(x) for x in r['command'][1]]
@@ -604,6 +618,8 @@ def run(ctx):
         hist = sc[1]
         style = sc[3] if len(sc) > 3 else 'plain'
         srctag = ('p%03d' % n) if any(e[0] in 'ME' for e in hist) else ''
+        if len(sc) > 4:
+            srctag = sc[4] + '%03d' % n
         plan.append((hist, style, srctag))
     for L in range(1, max([len(h) for h, _, _ in plan] + [0]) + 1):
         todo = {style + '|' + srctag + '|' + json.dumps(h[:L]): (h[:L], style, srctag) for h, style, srctag in plan if len(h) >= L}
@@ -613,6 +629,8 @@ def run(ctx):
         style = sc[3] if len(sc) > 3 else 'plain'
         # histories that edit the project or use a machine file get a private copy of the project
         srctag = ('p%03d' % len(jobs)) if any(e[0] in 'ME' for e in hist) else ''
+        if len(sc) > 4:
+            srctag = sc[4] + '%03d' % len(jobs)
         base, hw = runner.build_history(hist, style, srctag)
         jobs.append({'id': sid + ('' if style == 'plain' else ' [%s directory name]' % style), 'hist': hist, 'hw': hw, 'base': base,
                      'kind': kind, 'D': D, 'style': style, 'srctag': srctag, 'src': lab.src_for(srctag),
@@ -641,6 +659,9 @@ def run(ctx):
             if jb['id'].startswith('edited-defaults'):
                 # quick tier: everything around coredata.dat (the file these scenarios are about) + a sample of the rest
                 pts = [p for n, p in enumerate(pts) if p['j'] == 0 or 'coredata' in p['target'] or n % 6 == 0]
+            if jb['id'].startswith('cpp-modules'):
+                keep = {p['j'] for n, p in enumerate(pts) if n % 6 == 0}
+                pts = [p for p in rec['points'] if p['j'] == 0 or '.p/' in p['target'] or p['j'] in keep]
             if jb['id'].startswith('machine-file'):
                 pts = [p for n, p in enumerate(pts) if p['j'] == 0 or n % 5 == 0]
             if jb['id'].startswith('random'):
@@ -671,7 +692,7 @@ def run(ctx):
     ctx.extra['kill_runs_s'] = round(time.time() - t1, 1)
     t2 = time.time()
     fres = pmap(lambda x: lab.followup(x[0], x[1]), [(k['dir'], kills[i][0]['src']) for i, k in enumerate(kres)] + [(jb['rec']['full_dir'], jb['src']) for jb in jobs])
-    post = lab.classify([k['dir'] for k in kres] + full_dirs, ninja_refs + [])
+    post = lab.classify([k['dir'] for k in kres] + full_dirs, ninja_refs + [], wellformed=True)
     # build.ninja after a follow-up is a new complete file: accept any content there
     ctx.extra['followups_s'] = round(time.time() - t2, 1)
 
@@ -685,6 +706,7 @@ def run(ctx):
         vals = po['intro_values'] if f['rc'] == 0 else None
         obs = {'j': p['j'], 'what': p['what'], 'k': p['k'], 'state': pre[i]['state'], 'followup': f['followup'], 'rc': f['rc'],
                'cls': f['cls'], 'values': vals, 'msg_values': f['msg_values'], 'post': _fix_ninja(po['state']) if f['rc'] == 0 else None,
+               'ninja': po.get('ninja') if f['rc'] == 0 else None, 'problems': po.get('problems') if f['rc'] == 0 else None,
                'tail': f['tail'], 'stable': kres[i]['stable']}
         jb.setdefault('obs', []).append(obs)
         # distinct = distinct crashed states per scenario; trivial = nothing mutated yet (state of kill point 0)
@@ -703,6 +725,10 @@ def run(ctx):
         f, po = fres[nk + n], post[nk + n]
         jb['new'] = po['intro_values'] if f['rc'] == 0 else None
         jb['new_cls'] = f['cls']
+        # build.ninja of the uninterrupted runs of this scenario (path-normalised): before the command, after it, after its follow-up
+        withbase = [x for x in jobs if x['base']]
+        jb['ninja_refs'] = sorted({h for h in [refs_pre[n].get('ninja'), po.get('ninja') if f['rc'] == 0 else None] +
+                                   [refs_pre[len(jobs) + i].get('ninja') for i, x in enumerate(withbase) if x is jb] if h})
 
     # --- damage table (recovery decisions on unreachable states)
     dmg = []
@@ -753,14 +779,14 @@ def run(ctx):
     for jb in jobs:
         obs = jb.get('obs', [])
         first = next((o for o in obs if o['j'] == 0), None)
-        osc.append({'id': jb['id'], 'old': first['values'] if first else None, 'new': jb['new'],
-                    'points': [{k: o[k] for k in ('j', 'what', 'rc', 'cls', 'values', 'msg_values', 'post', 'tail')} for o in obs]})
+        osc.append({'id': jb['id'], 'old': first['values'] if first else None, 'new': jb['new'], 'ninja_refs': jb.get('ninja_refs', []),
+                    'points': [{k: o[k] for k in ('j', 'what', 'rc', 'cls', 'values', 'msg_values', 'post', 'tail', 'ninja', 'problems')} for o in obs]})
     fails = run_impl('c09.py', {'oracle': osc}, env={'PYTHONPYCACHEPREFIX': lab.pyc})['oracle']
     disagreeing = {(d.get('scenario'), d.get('kill_point')) for d in ctx.disagreements}
     for jb, fl in zip(jobs, fails):
         hist_txt = '; '.join((cmd_text(e[0], e[1]) + (' (killed at mutation %s)' % e[3] if e[3] is not None else '')) if e[0] != 'X'
                              else 'damage ' + e[1] for e in jb['hist']) or 'empty directory'
-        replay_base = {'history': jb['hist'], 'command': [jb['kind'], jb['D']], 'style': jb['style'], 'private_project_copy': bool(jb['srctag']),
+        replay_base = {'history': jb['hist'], 'command': [jb['kind'], jb['D']], 'style': jb['style'], 'private_project_copy': bool(jb['srctag']), 'project': jb['srctag'][:3] if jb['srctag'].startswith('cpp') else '',
                        'build_directory_name_like': STYLES[jb['style']] % 1}
         if jb['rec']['rc1'] != 0:
             ctx.violation('C09:command-fails:' + jb['id'],
@@ -782,6 +808,11 @@ def run(ctx):
             if kind == 'neither-old-nor-new':
                 detail = 'option %s is %r afterwards; before the command it was %r, the command was setting %r' % (
                     key, dec(f['got']), dec(f['old']), dec(f['new']))
+            elif kind == 'state-file-malformed-after-followup':
+                detail = 'the follow-up exits 0 but the build.ninja / compile_commands.json it wrote is malformed: ' + '; '.join(f['problems'])
+            elif kind == 'build.ninja-differs-from-uninterrupted-run':
+                detail = 'the follow-up exits 0 but the build.ninja it wrote is not the file an uninterrupted run writes (sha1 %s, expected one of %s)' % (
+                    f['sha1_after_recovery'][:12], [h[:12] for h in f['sha1_of_uninterrupted_runs']])
             elif kind == 'followup-fails':
                 detail = 'the follow-up exits with %s: %s' % (f['class'], ' / '.join(f.get('detail') or [])[-300:])
             else:
